@@ -35,6 +35,7 @@ DECIDED = [
     "C14.8 lock wait = update_pool_timeout (300); delete_local = os.unlink(pool_path) under the lock; link variants delegate with arguments in place; missing file <-> ''",
     "C14.2h the compare that guards each copy covers the complete files (KNOWN FINDING F10: only the first MiB is hashed)",
     "C14.2f the compare that guards each copy hashes both files when asked (no cached or metadata-only comparison)",
+    "C14.2w the copy is the only file mutation of a plain transfer; C14.5c the lock file is opened once; C14.5e every path to the locked yield holds the lock (path typestate)",
 ]
 NOT_DECIDED = ["byte identity of shutil.copy", "POSIX lock semantics across processes and crashes", "remote pools (no remote lock support in the code)"]
 ASSUMPTIONS = ["fcntl.lockf gives mutual exclusion between processes on the same lock file and is dropped when the descriptor is closed"]
